@@ -64,12 +64,12 @@ class _Observer(Contract):
     def loop_specs(self):
         def inv(L):
             g = L.g['self']
-            t = L.env['t'].z
-            spans = L.env['spans']
+            t = L.env['t'].z                 # parameter
+            spans = L.iterable               # the timeline being scanned
             S, E = g['S'][spans.r], g['E'][spans.r]
             return [('no_earlier_interval_covers_t', FA_idx(L.k, lambda j: z3.Not(z3.And(S[j] <= t, t <= E[j])),
                                                             pattern=lambda j: [S[j]]))]
-        return {'timeline:s': LoopSpec(inv, modifies={})}
+        return {'timeline/1': LoopSpec(inv, modifies={})}
 
 
 class PresenceTest(_Observer):
